@@ -221,10 +221,12 @@ func newNode(wc *worldCfg, level int, scratch string, setup []module.Transaction
 	gsb := wc.genesisJSON()
 	c := &simChain{database: dbase, logger: logger, level: level, gstor: gs.NewFromTx(gsb), gsBytes: gsb, w: godWallet}
 	plt := basic.Platform
-	cm, err := plt.NewContractManager(dbase, scratch+"/contract", logger)
+	rcm, err := plt.NewContractManager(dbase, scratch+"/contract", logger)
 	if err != nil {
 		return nil, err
 	}
+	// decorator: calls to asyncAddr get the harness asynchronous contract, everything else is goloop's
+	var cm contract.ContractManager = harnessCM{rcm}
 	tsc := service.NewTimestampChecker()
 	init, err := service.NewInitTransition(dbase, nil, nil, cm, nil, c, logger, plt, tsc)
 	if err != nil {
